@@ -240,6 +240,189 @@ estimate_wiring = Contract(
 )
 
 
+# ------------------------------------------------------------------ the fixed-point solver behind the Charnock roughness
+import z3 as _z3
+import pyvc.models.log    # noqa  (loggers: no modelled effect)
+from pyvc.loops import LoopContract
+
+S = "tools/solvers.py::"
+SOLVERS_MODULE = "ocean_science_utilities.tools.solvers"
+CFG_DEFAULT = {"atol": Fraction(1, 10000), "rtol": Fraction(1, 10000), "max_iter": 100, "aitken_acceleration": True, "fraction_of_points": 1,
+               "error_if_not_converged": False}
+
+
+class ArrayFn:
+    """`function`: an arbitrary function from arrays to arrays of the same length (a fresh, unconstrained result at every call) with ONE
+    hypothesis: a cell that is NaN in the argument is NaN in the result (missing in -> missing out).  The last call is recorded (ghost)."""
+
+    def __call__(self, interp, st, args, kwargs):
+        x = st.deref(args[0])
+        if not isinstance(x, _Arr) or x.ndim != 1 or len(args) != 1 or kwargs:
+            raise _T.Unsupported("function model: one 1-d array argument")
+        f = _z3.Function(_T.Fresh.name("function_value"), _T.IntS, _T.RealS)
+        g = _z3.Function(_T.Fresh.name("function_nan"), _T.IntS, _T.BoolS)
+        res = _Arr(x.shape, lambda ix, x=x, f=f, g=g: _T.xr(f(_T.to_z3(ix[0])), _T.lor(_T.xnan(x.get(ix)), g(_T.to_z3(ix[0])))), (), "real", "function_result")
+        st.ghost["function_call"] = (x, res)
+        st.ghost["function_calls"] = st.ghost.get("function_calls", 0) + 1
+        return st.alloc(res, "function_result")
+
+
+def _cfg(c, name):
+    """field of the configuration (the defaults of the dataclass when none / a default-constructed one is used)"""
+    if c is None:
+        return CFG_DEFAULT[name]
+    try:
+        return getattr(c, name)
+    except AttributeError:
+        return CFG_DEFAULT[name]
+
+
+def _p_fpi(bounds, config):
+    def p(mk):
+        n = mk.size("n")
+        d = {"function": ArrayFn(), "guess": mk.array("guess", (n,), "xreal")}
+        if bounds == "lower":
+            d["bounds"] = (mk.real("lower_bound"), _T.INF)
+        elif bounds == "both":
+            d["bounds"] = (mk.real("lower_bound"), mk.real("upper_bound"))
+        d["configuration"] = None if config == "default" else mk.obj("configuration", "Configuration", {
+            "atol": "real", "rtol": "real", "max_iter": "int", "aitken_acceleration": "bool",
+            "fraction_of_points": "real", "error_if_not_converged": "bool"})
+        mk.st.globals[(SOLVERS_MODULE, "_iteration_depth")] = mk.int("iteration_depth_before")      # module-level counter: any value on entry
+        return d
+    return p
+
+
+def _finite_or_nan(v):
+    """the value is NaN or a finite real (no infinity)"""
+    if isinstance(v, _T.XR):
+        return Or(v.nan, Not(_T.cmp("==", v.v, _T.INF)))
+    if is_symbolic(v):
+        return Not(_T.cmp("==", v, _T.INF))
+    import math
+    return not math.isinf(v)
+
+
+def _conv_test(x, p, atol, rtol):
+    """the solver's convergence test between the new iterate x and the previous one p (false when either is NaN)"""
+    d = absv(valof(x) - valof(p))
+    ap = absv(valof(p))
+    return And(notnan(x), notnan(p), d < atol, d / If(ap >= atol, ap, atol) < rtol)
+
+
+def _clamp(v, p, bounds):
+    """the solver's bounds step: a value at or below the lower bound (above the upper bound) is replaced by the midpoint of the previous
+    iterate and the bound; NaN compares false and is kept"""
+    lo, hi = bounds
+    half = _q(1, 2, 1.0 if not is_symbolic(v, p, lo, hi) else _T.INF)
+    def where(c, a, b):
+        return If(c, a, b)
+    if not (_T.is_sym(lo) and (lo.eq(_T.NINF))):
+        v = _xite(_xcmp("<=", v, lo), _xadd(_xmul(_xsub(lo, p), half), p), v)
+    if not (_T.is_sym(hi) and hi.eq(_T.INF)):
+        v = _xite(_xcmp(">", v, hi), _xadd(_xmul(_xsub(hi, p), half), p), v)
+    return v
+
+
+def _xcmp(op, a, b):
+    return _T.cmp(op, a, b)
+
+
+def _xite(c, a, b):
+    return _T.ite(c, a, b)
+
+
+def _xadd(a, b):
+    return _T.add(a, b)
+
+
+def _xsub(a, b):
+    return _T.sub(a, b)
+
+
+def _xmul(a, b):
+    return _T.mul(a, b)
+
+
+def _cell(arr, e):
+    return arr.get((e,))
+
+
+def _fpi_bounds(a):
+    return a.bounds if "bounds" in a else (_T.NINF, _T.INF)
+
+
+def _inv_nan_stays(ns):
+    g, it = ns.guess, ns.iterates
+    return forall(0, g.n, lambda e: implies(isnan(g[e]), isnan(it[2][e])))
+
+
+def _inv_converged_means_test(ns):
+    it, c = ns.iterates, ns.configuration
+    atol, rtol = _cfg(c, "atol"), _cfg(c, "rtol")
+    return forall(0, ns.guess.n, lambda e: implies(ns.converged[e], _conv_test(it[2][e], it[1][e], atol, rtol)))
+
+
+FPI_LOOP = LoopContract(invariant=[("missing_guess_cells_stay_missing", _inv_nan_stays),
+                                   ("converged_flags_imply_the_convergence_test_between_the_last_two_iterates", _inv_converged_means_test)])
+
+
+def _fpi_exit(a):
+    return a._ghost.get("inv1.exit")
+
+
+def _post_converged_exit(a, r):
+    """loop left through `break` with fraction_of_points == 1: every cell whose guess is finite is an approximate fixed point"""
+    if _fpi_exit(a) != "break":
+        return True
+    prev, fprev = a._ghost["function_call"]
+    c = a.configuration
+    atol, rtol, frac = _cfg(c, "atol"), _cfg(c, "rtol"), _cfg(c, "fraction_of_points")
+    bounds = _fpi_bounds(a)
+
+    def cell(e):
+        x, p = r[e], _cell(prev, e)
+        return implies(notnan(a.guess[e]), And(_conv_test(x, p, atol, rtol), eq(x, _clamp(_cell(fprev, e), p, bounds))))
+    return implies(eq(frac, 1), forall(0, a.guess.n, cell))
+
+
+def _post_missing(a, r):
+    return forall(0, a.guess.n, lambda e: implies(isnan(a.guess[e]), isnan(r[e])))
+
+
+def _post_exhausted(a, r):
+    """loop exhausted (for-else), errors off: a cell is NaN unless it passed the convergence test in the last iteration"""
+    if _fpi_exit(a) != "exhausted":
+        return True
+    c = a.configuration
+    it = a._ghost["locals"]["iterates"]
+    prev = a._snap.deref(a._snap.deref(it)[1])
+    return And(Not(_cfg(c, "error_if_not_converged")),
+               forall(0, a.guess.n, lambda e: Or(isnan(r[e]), _conv_test(r[e], _cell(prev, e), _cfg(c, "atol"), _cfg(c, "rtol")))))
+
+
+def _post_depth(a, r):
+    return eq(a._snap.globals[(SOLVERS_MODULE, "_iteration_depth")], a.old._depth0) if False else \
+        eq(a._snap.globals[(SOLVERS_MODULE, "_iteration_depth")], _z3.Int("iteration_depth_before"))
+
+
+FPI_INST = [(f"{b},{c}", _p_fpi(b, c)) for b in ("unbounded", "lower", "both") for c in ("default", "record")]
+fixed_point = Contract(
+    S + "fixed_point_iteration", instances=FPI_INST,
+    requires=[("nonempty", lambda a: a.guess.n >= 1),
+              ("guess_cells_are_finite_or_missing", lambda a: forall(0, a.guess.n, lambda e: _finite_or_nan(a.guess[e]))),
+              ("finite_bounds", lambda a: And(*[Not(_T.cmp("==", b, _T.INF)) for b in _fpi_bounds(a) if _T.is_sym(b) and not b.eq(_T.INF) and not b.eq(_T.NINF)]))],
+    ensures=[("converged_exit_every_finite_guess_cell_is_an_approximate_fixed_point_of_the_clamped_function", _post_converged_exit),
+             ("missing_guess_cells_are_returned_missing", _post_missing),
+             ("exhausted_exit_returns_nan_or_cells_that_passed_the_convergence_test_and_only_when_errors_are_off", _post_exhausted),
+             ("iteration_depth_counter_restored", _post_depth),
+             ("result_has_the_length_of_the_guess", lambda a, r: eq(r.n, a.guess.n))],
+    raises={"ValueError": lambda a: And(a.configuration is not None, _cfg(a.configuration, "error_if_not_converged"))},
+    options={"loop_invariants": {lab: {1: FPI_LOOP} for lab, _ in FPI_INST}, "expose_locals": True, "sum_monotone": True},
+)
+fixed_point.loops = {1: FPI_LOOP}
+
+
 # ------------------------------------------------------------------ bounded: Charnock implicit equation on the real functions
 def _bounded_charnock(tier, seed):
     import warnings
@@ -411,7 +594,7 @@ def _bounded_janssen(tier, seed):
 
 BOUNDED = [Bounded("janssen.stress_balance.compiled", _bounded_janssen, "NaN-or-positive and closure of the stress balance at the returned roughness"),
            Bounded("charnock.implicit_equation", _bounded_charnock, "residual of the implicit Charnock equation at the returned roughness; NaN handling; monotonicity")]
-CONTRACTS = [drag, wu, charnock_point, estimate_point, stress_balance, total_stress, estimate_wiring]
+CONTRACTS = [drag, wu, charnock_point, estimate_point, stress_balance, total_stress, estimate_wiring, fixed_point]
 TRUSTED = ["A-table: exp(x) > 0; sqrt(x) > 0 for x > 0; log is an uninterpreted function (formula contracts are syntactic in log)",
            "np.nan is an opaque non-real value in the model (np.isnan of a real is False: NaN *inputs* are outside the real model and are sampled in the bounded stand-in)"]
 EXPLANATION = ("formula fragments and the NaN-or-positive exit contract of the Janssen estimate are proved; the Charnock fixed point "
